@@ -79,10 +79,12 @@ def attr_case(draw):
     names = draw(st.lists(st.sampled_from(gen.NAME_POOL), min_size=D, max_size=D, unique=True))
     if draw(st.integers(0, 1)):
         names = sorted(names, key=gen.var_num)
-    fault = draw(st.sampled_from([None] * 6 + ["dup-name", "dup-name", "len-coef", "len-names"]))
+    fault = draw(st.sampled_from([None] * 5 + ["dup-name", "dup-name", "dup-name", "len-coef", "len-names"]))
     if fault == "dup-name" and D >= 2:
         i, j = sorted(draw(st.lists(st.integers(0, D - 1), min_size=2, max_size=2, unique=True)))
-        names[j] = names[i]  # adjacent or not
+        if D >= 3 and draw(st.booleans()):
+            i, j = 0, D - 1  # not adjacent
+        names[j] = names[i]
     func = draw(st.sampled_from(["polynomial_from_attributes", "from_attributes", "clean_attributes",
                                  "remove_redundant_coefficients", "remove_redundant_names"]))
     tri = st.sampled_from([None, True, False])
